@@ -41,6 +41,10 @@ type Property struct {
 	ID       string
 	Patterns []string // package patterns relative to the repo root
 	NeedSSA  bool
+	// BuildAll also builds the function bodies of non-module packages
+	// (standard library, x/tools), so that the call graph contains calls
+	// back from them into the module.
+	BuildAll bool
 	// Explanation is the coverage.explanation text of the evidence file.
 	Explanation string
 	RuleText    string
